@@ -70,15 +70,15 @@ func (h *Handler[C]) NewObservation(req *pool.Message, observeFunc func(req *poo
 		Code:    req.Code(),
 		Options: options,
 	}, h, observeFunc, respObservationChan)
+	if _, loaded := h.observations.LoadOrStore(token.Hash(), o); loaded {
+		// the token is in use by another observation: refuse without touching its entry
+		return nil, pkgErrors.ErrKeyAlreadyExists
+	}
 	defer func(err *error) {
 		if *err != nil {
 			o.cleanUp()
 		}
 	}(&err)
-	if _, loaded := h.observations.LoadOrStore(token.Hash(), o); loaded {
-		err = pkgErrors.ErrKeyAlreadyExists
-		return nil, err
-	}
 
 	err = h.cc.WriteMessage(req)
 	if err != nil {
